@@ -232,6 +232,25 @@ func sizeLaw(h hdr, b []byte) error {
 type Case struct {
 	M      gen.MeshDesc
 	TexURI string `json:",omitempty"`
+	// Wide > 0: that many further user scalar attributes feat_000.. (values from a recipe) are added
+	// before writing: vertex records of hundreds of bytes, ascii lines beyond 1 KiB (feature clouds)
+	Wide int `json:",omitempty"`
+}
+
+func widen(d gen.MeshDesc, k int) gen.MeshDesc {
+	out := d
+	out.V1 = map[string][]gen.F{}
+	for name, rows := range d.V1 {
+		out.V1[name] = rows
+	}
+	for a := 0; a < k; a++ {
+		rows := make([]gen.F, d.N)
+		for v := range rows {
+			rows[v] = gen.F(float64((a*7+v*3)%257-128) / 8)
+		}
+		out.V1[fmt.Sprintf("feat_%03d", a)] = rows
+	}
+	return out
 }
 
 var plyAttrs = []gen.AttrSpec{
@@ -281,6 +300,9 @@ func genCase(t *rapid.T) Case {
 		}
 	}
 	c := Case{M: d}
+	if rapid.Uint64().Draw(t, "wide")%25 == 0 {
+		c.Wide = rapid.SampledFrom([]int{70, 130, 300}).Draw(t, "wideAttrs")
+	}
 	if d.PrimCount() > 0 && rapid.IntRange(0, 3).Draw(t, "tex") == 0 {
 		c.TexURI = rapid.SampledFrom([]string{"tex.png", "a b.jpg", "dir/t.png"}).Draw(t, "uri")
 	}
@@ -368,6 +390,11 @@ func readAttr(m *modeling.Mesh, name string, arity, v int) ([]float64, bool) {
 }
 
 func runCase(c Case, o *vh.Obs) *vh.Failure {
+	if c.Wide > 0 && c.Wide <= 1000 {
+		c.M = widen(c.M, c.Wide)
+		o.Class("wide/more-than-64-scalar-attributes")
+		o.NonTrivial()
+	}
 	d := c.M
 	src := d.Build()
 	if c.TexURI != "" {
